@@ -223,10 +223,10 @@ fn ghost_add_small(_v: &mut crate::bigint::VecType, y: Limb) -> Option<()> {
     Some(())
 }
 
-fn digits24() -> [u8; 24] {
-    let a: [u8; 24] = kani::any();
+fn digits24() -> [u8; 40] {
+    let a: [u8; 40] = kani::any();
     let mut i = 0;
-    while i < 24 {
+    while i < 40 {
         kani::assume(a[i] >= b'0' && a[i] <= b'9');
         i += 1;
     }
@@ -258,7 +258,7 @@ fn parse_mantissa_case(ilen: usize, flen: usize, z: usize, max_digits: usize) {
     // number without integer part is the concrete digit '7': symbolic execution then follows
     // one control path through the zero-skipping loop (all other digits stay symbolic)
     let mut k = 0;
-    while k < 24 {
+    while k < 40 {
         if ilen == 0 && k < z && k < flen {
             frac[k] = b'0';
         }
@@ -305,7 +305,7 @@ fn parse_mantissa_case(ilen: usize, flen: usize, z: usize, max_digits: usize) {
 macro_rules! pmant {
     ($name:ident, $i:expr, $f:expr, $z:expr, $m:expr) => {
         #[kani::proof]
-        #[kani::unwind(26)]
+        #[kani::unwind(42)]
         #[cfg_attr(not(feature = "alloc"), kani::stub(crate::stackvec::StackVec::mul_small, ghost_mul_small))]
         #[cfg_attr(not(feature = "alloc"), kani::stub(crate::stackvec::StackVec::add_small, ghost_add_small))]
         #[cfg_attr(feature = "alloc", kani::stub(crate::heapvec::HeapVec::mul_small, ghost_mul_small))]
@@ -315,6 +315,9 @@ macro_rules! pmant {
         }
     };
 }
+// two full 19-digit chunks (the second chunk boundary), value still below 2^128
+pmant!(pslow_pmant_i38_f0_all, 38, 0, 0, 769);
+pmant!(pslow_pmant_i20_f18_all, 20, 18, 0, 769);
 pmant!(pslow_pmant_i3_f0_all, 3, 0, 0, 769);
 pmant!(pslow_pmant_i0_f5_z2_all, 0, 5, 2, 769);
 pmant!(pslow_pmant_i0_f3_z3_all, 0, 3, 3, 114);
